@@ -6,7 +6,6 @@ sys.path.insert(0, os.path.join(VERIF, "lib"))
 import props
 
 NA = {
- "C07": "linearizability over concurrent histories: Kani has no thread support and Verus sees the store's atomics / scc entry guards only through sequential shims, so no contract within reach quantifies over interleavings; the sequential kernel of its three mechanisms (swap only on the examined generation under the entry guard, strictly greater timestamps, the retirement-timestamp check, retry with a fresh timestamp) is decided under C01 / C12 (units update_path, atomic_ops, record_chain) and is not claimed a second time here",
  "C08": "interleaving property (readers vs flush/retire/reuse); only sequential kernels are provable and they are reported under C10/C03",
  "C14": "range scan lives entirely on crossbeam-skiplist + epoch pins, outside both tools",
  "C15": "file-system publication protocol + two whole-store recoveries; no per-function contract within reach decides it",
